@@ -1,5 +1,21 @@
 from ... import features
+from ...util import hashobj
 from .ancillary_feature import AncillaryFeature
+
+
+def bg_off_identifier(mm):
+    """Identify the optional `bg_off` feature for caching purposes
+
+    The feature `bg_off` is not required for computing the
+    background-corrected brightness features, but it is used if it is
+    available. The return value of this function is included in
+    :func:`AncillaryFeature.hash`, such that the cached data are
+    recomputed when `bg_off` is set or modified.
+    """
+    if "bg_off" in mm:
+        return ["bg_off", hashobj(mm["bg_off"])]
+    else:
+        return True
 
 
 def compute_contour(mm):
@@ -77,19 +93,23 @@ def register():
 
     AncillaryFeature(feature_name="bright_bc_avg",
                      method=compute_bright_bc,
-                     req_features=["image", "image_bg", "mask"])
+                     req_features=["image", "image_bg", "mask"],
+                     req_func=bg_off_identifier)
 
     AncillaryFeature(feature_name="bright_bc_sd",
                      method=compute_bright_bc,
-                     req_features=["image", "image_bg", "mask"])
+                     req_features=["image", "image_bg", "mask"],
+                     req_func=bg_off_identifier)
 
     AncillaryFeature(feature_name="bright_perc_10",
                      method=compute_bright_perc,
-                     req_features=["image", "image_bg", "mask"])
+                     req_features=["image", "image_bg", "mask"],
+                     req_func=bg_off_identifier)
 
     AncillaryFeature(feature_name="bright_perc_90",
                      method=compute_bright_perc,
-                     req_features=["image", "image_bg", "mask"])
+                     req_features=["image", "image_bg", "mask"],
+                     req_func=bg_off_identifier)
 
     AncillaryFeature(feature_name="inert_ratio_cvx",
                      method=compute_inert_ratio_cvx,
